@@ -1,0 +1,24 @@
+//go:build verif
+
+package ipfslog
+
+import "sync/atomic"
+
+// VerifHook, when set, is called at named points of Append, Join, Iterator and
+// ToMultihash (verification builds only). It may block: that is how a test
+// harness controls interleavings.
+var verifHookFn atomic.Value
+
+// SetVerifHook installs (or, with nil, removes) the hook.
+func SetVerifHook(f func(point string, obj interface{})) {
+	if f == nil {
+		f = func(string, interface{}) {}
+	}
+	verifHookFn.Store(f)
+}
+
+func verifHook(point string, obj interface{}) {
+	if f, ok := verifHookFn.Load().(func(string, interface{})); ok && f != nil {
+		f(point, obj)
+	}
+}
